@@ -116,12 +116,16 @@ def ds_s(out) -> str:
 
 
 # ------------------------------------------------------------------ real-side construction
-def make_xx(oxr, g, nt, nb, dask=False, dtype="int16", cn="spatial_ref", route="wrap", axis=None, **attrs):
+CHUNK_MODES = ["half", "single", "small"]
+
+
+def make_xx(oxr, g, nt, nb, dask=False, dtype="int16", cn="spatial_ref", route="wrap", axis=None, chunk_mode="half", **attrs):
     """registration routes / keywords: wrap_xr(crs_coord_name=, axis=, time=, nodata=, **attrs),
     xr_zeros(chunks=, time=, crs_coord_name=), wrap_xr(crs_coord_name=None) + .odc.assign_crs(crs, crs_coord_name=)"""
     ny, nx = g.shape
     shape = (*(() if nt is None else (nt,)), ny, nx, *(() if nb is None else (nb,)))
-    chunks = tuple(max(1, (s + 1) // 2) for s in shape)
+    chunks = (tuple(max(1, (s + 1) // 2) for s in shape) if chunk_mode == "half" else tuple(shape) if chunk_mode == "single"
+              else tuple(min(2, max(1, s)) for s in shape))
     time = None if nt is None else [f"2020-01-{i + 1:02d}" for i in range(nt)]
     if route == "zeros" and nb is None:
         return oxr.xr_zeros(g, dtype=dtype, chunks=chunks if dask else None, time=time, crs_coord_name=cn, **attrs)
@@ -865,7 +869,6 @@ def reproject_part(R: Run, mods):
             dst = dst_box(src)
         nt = rng.choice([None, None, 2])
         nb = rng.choice([None, None, 2])
-        dask = rng.random() < 0.25
         keys = [k for k in stale if rng.random() < 0.6]
         attrs = {k: stale[k] for k in keys}
         attrs["keep"] = "me"
@@ -885,86 +888,118 @@ def reproject_part(R: Run, mods):
         cn = rng.choice(["spatial_ref", "spatial_ref", "crs", "foo"])
         post = [rng.choice([("arith",), ("type",), ("pickle", rng.choice(RT_KINDS), rng.random() < 0.6)]) for _ in range(rng.choice([0, 1, 1, 2]))]
         attr_keys = list(attrs)
-        kind = "ds" if as_ds else "da"
-        case = {"reproject": kind, "src": src_s(src), "dst": src_s(dst), "nt": nt, "nb": nb, "dask": dask,
-                "attrs": attr_keys, "ops": list_s(ops, op_s), "dst_nodata": dst_nodata, "crs_coord_name": cn,
-                "post": list_s(post, op_s)}
+        # the identity corner, generated deliberately: the destination is the source's own grid (the very GeoBox
+        # object the accessor returns, or an equal one) — the result must still be a properly assembled output
+        identity = None
+        if rng.random() < 0.3:
+            try:
+                gb = apply_ops(make_xx(oxr, src, nt, nb, False, dtype="float32", cn=cn), ops).odc.geobox
+            except Exception:  # pylint: disable=broad-except
+                gb = None
+            if gb is not None and gb.crs is not None and 0 not in tuple(gb.shape):
+                dst = GeoBox(gb.shape, gb.affine, gb.crs)
+                identity = rng.choice(["same-object", "equal-object"])
+        # the claim is independent of the backing store: every case runs numpy-backed and dask-backed (various chunkings)
+        for dask, chunk_mode in ((False, None), (True, rng.choice(CHUNK_MODES))):
+            kind = "ds" if as_ds else "da"
+            case = {"reproject": kind, "src": src_s(src), "dst": src_s(dst), "nt": nt, "nb": nb, "dask": dask,
+                    "attrs": attr_keys, "ops": list_s(ops, op_s), "dst_nodata": dst_nodata, "crs_coord_name": cn,
+                    "post": list_s(post, op_s), "chunks": chunk_mode, "identity": identity}
 
-        def mk():
-            if cn != "spatial_ref" and "grid_mapping" in attrs:
-                attrs["grid_mapping"] = cn
-            xx = make_xx(oxr, src, nt, nb, dask, dtype="float32", cn=cn, **attrs)
-            return apply_ops(xx, ops)
+            def mk():
+                if cn != "spatial_ref" and "grid_mapping" in attrs:
+                    attrs["grid_mapping"] = cn
+                xx = make_xx(oxr, src, nt, nb, dask, dtype="float32", cn=cn, chunk_mode=chunk_mode or "half", **attrs)
+                return apply_ops(xx, ops)
 
-        if not as_ds:
-            line = (f"c09 repr {src_s(src)} {opt_s(nt)} {opt_s(nb)} {cn} {list_s(ops, op_s)} {list_s(attr_keys)} "
-                    f"{src_s(dst)} {'T' if dst_nodata is not None else 'F'} {list_s(post, op_s)}")
-            box = []
+            if not as_ds:
+                line = (f"c09 repr {src_s(src)} {opt_s(nt)} {opt_s(nb)} {cn} {list_s(ops, op_s)} {list_s(attr_keys)} "
+                        f"{src_s(dst)} {'T' if dst_nodata is not None else 'F'} {list_s(post, op_s)}")
+                box = []
 
-            def f():
-                out = oxr.xr_reproject(mk(), dst, dst_nodata=dst_nodata)
-                box.append(out)
-                out2 = apply_ops(out, post)
-                box.append(out2)
-                return out_s(out2)
+                def f():
+                    arr = mk()
+                    out = oxr.xr_reproject(arr, arr.odc.geobox if identity == "same-object" else dst, dst_nodata=dst_nodata)
+                    box.append(out)
+                    out2 = apply_ops(out, post)
+                    box.append(out2)
+                    return out_s(out2)
 
-            R.corr(line, f, sig=f"repr|da|{klass(src)}->{klass(dst)}" + ("|dask" if dask else "") + ("|name" if cn != "spatial_ref" else ""))
-            if box:
-                reproject_oracle(R, box[0], dst, case, "da")
-                if len(box) > 1 and post:
-                    reproject_oracle(R, box[1], dst, case, "da|after-op", encoding_kept=all(o[0] == "pickle" for o in post))
+                R.corr(line, f, sig=f"repr|da|{klass(src)}->{klass(dst)}" + ("|dask" if dask else "") + ("|name" if cn != "spatial_ref" else ""))
+                if box:
+                    reproject_oracle(R, box[0], dst, case, "da")
+                    if len(box) > 1 and post:
+                        reproject_oracle(R, box[1], dst, case, "da|after-op", encoding_kept=all(o[0] == "pickle" for o in post))
+                else:
+                    R.oracle(False, "reproject|da|raises", case, "xr_reproject raised")
             else:
-                R.oracle(False, "reproject|da|raises", case, "xr_reproject raised")
-        else:
-            dsattrs = [k for k in ("crs", "title", "grid_mapping") if rng.random() < 0.5]
-            extra = rng.random() < 0.5
-            line = (f"c09 reprds {src_s(src)} {opt_s(nt)} {opt_s(nb)} {cn} {list_s(ops, op_s)} {list_s(attr_keys)} "
-                    f"{list_s(dsattrs)} {'T' if extra else 'F'} {src_s(dst)}")
-            box = []
+                dsattrs = [k for k in ("crs", "title", "grid_mapping") if rng.random() < 0.5]
+                extra = rng.random() < 0.5
+                line = (f"c09 reprds {src_s(src)} {opt_s(nt)} {opt_s(nb)} {cn} {list_s(ops, op_s)} {list_s(attr_keys)} "
+                        f"{list_s(dsattrs)} {'T' if extra else 'F'} {src_s(dst)}")
+                box = []
 
-            def fds():
-                a = mk()
-                dv = {"a": a, "b": a * 2}
-                if extra:
-                    dv["c"] = xr.DataArray(np.zeros(3), dims=("t",), coords={"t": ["u", "v", "w"]})
-                ds = xr.Dataset(dv, attrs={k: (cn if k == "grid_mapping" else "stale") for k in dsattrs})
-                out = oxr.xr_reproject(ds, dst)
-                box.append(out)
-                return ds_s(out)
+                def fds():
+                    a = mk()
+                    dv = {"a": a, "b": a * 2}
+                    if extra:
+                        dv["c"] = xr.DataArray(np.zeros(3), dims=("t",), coords={"t": ["u", "v", "w"]})
+                    ds = xr.Dataset(dv, attrs={k: (cn if k == "grid_mapping" else "stale") for k in dsattrs})
+                    out = oxr.xr_reproject(ds, ds.odc.geobox if identity == "same-object" else dst)
+                    box.append(out)
+                    return ds_s(out)
 
-            R.corr(line, fds, sig=f"repr|ds|{klass(src)}->{klass(dst)}" + ("|dask" if dask else ""))
-            if box:
-                out = box[0]
-                for nm in ("a", "b"):
-                    reproject_oracle(R, out[nm], dst, case, "ds|var")
-                    if post:
-                        try:
-                            reproject_oracle(R, apply_ops(out[nm], post), dst, case, "ds|var|after-op",
-                                             encoding_kept=all(o[0] == "pickle" for o in post))
-                        except Exception as e:  # pylint: disable=broad-except
-                            R.oracle(False, "reproject|ds|var|after-op|raises", case, repr(e))
-                reproject_oracle(R, out, dst, case, "ds")
-            else:
-                R.oracle(False, "reproject|ds|raises", case, "xr_reproject raised")
+                R.corr(line, fds, sig=f"repr|ds|{klass(src)}->{klass(dst)}" + ("|dask" if dask else ""))
+                if box:
+                    out = box[0]
+                    for nm in ("a", "b"):
+                        reproject_oracle(R, out[nm], dst, case, "ds|var")
+                        if post:
+                            try:
+                                reproject_oracle(R, apply_ops(out[nm], post), dst, case, "ds|var|after-op",
+                                                 encoding_kept=all(o[0] == "pickle" for o in post))
+                            except Exception as e:  # pylint: disable=broad-except
+                                R.oracle(False, "reproject|ds|var|after-op|raises", case, repr(e))
+                    reproject_oracle(R, out, dst, case, "ds")
+                else:
+                    R.oracle(False, "reproject|ds|raises", case, "xr_reproject raised")
 
-    # destination given as a CRS: recovered geobox is the computed output geobox
-    for it in range(R.pick(12, 120)):
+    # destination given as a CRS: recovered geobox is the computed output geobox — other CRSs and the source's OWN CRS
+    # in every spelling (where compute_output_geobox hands back the source grid), default and explicit-equal resolution,
+    # stale spatial attrs / custom CRS-coordinate names, numpy- and dask-backed
+    from odc.geo.crs import CRS as _CRS
+    from odc.geo.types import resxy_ as _resxy
+
+    for it in range(R.pick(16, 140)):
         scrs = rng.choice(["EPSG:4326", "EPSG:32633", "EPSG:3857"])
         src = src_box(scrs)
-        how = rng.choice([c for c in ["EPSG:4326", "EPSG:3857", "EPSG:32633", "utm"] if c != scrs])
+        own = rng.random() < 0.5
+        if own:
+            how = rng.choice([scrs, scrs.lower(), int(scrs.split(":")[1]), _CRS(scrs), _CRS(src.crs.to_wkt()), src.crs])
+        else:
+            how = rng.choice([c for c in ["EPSG:4326", "EPSG:3857", "EPSG:32633", "utm"] if c != scrs])
         as_ds = rng.random() < 0.5
-        case = {"reproject": "to-crs", "src": src_s(src), "how": how, "ds": as_ds}
-        try:
-            cn = rng.choice(["spatial_ref", "crs"])
-            case["crs_coord_name"] = cn
-            xx = make_xx(oxr, src, None, None, False, dtype="float32", cn=cn, crs="stale", nodata=0, keep="me")
-            cache_history(rng, src.crs, how)
-            want = xx.odc.output_geobox(how)
-            obj = xr.Dataset({"a": xx, "b": xx + 1}, attrs={"crs": "stale"}) if as_ds else xx
-            out = oxr.xr_reproject(obj, how)
-            reproject_oracle(R, out, want, case, "ds|to-crs" if as_ds else "da|to-crs", approx=True)
-        except Exception as e:  # pylint: disable=broad-except
-            R.oracle(False, "reproject|to-crs|raises", case, repr(e))
+        kw = {}
+        if own and rng.random() < 0.4:
+            kw["resolution"] = rng.choice([_resxy(src.resolution.x, src.resolution.y), "same"])
+        cn = rng.choice(["spatial_ref", "crs"])
+        stale_attrs = {k: v for k, v in (("crs", "stale"), ("grid_mapping", cn), ("epsg", 1), ("crs_wkt", "stale")) if rng.random() < 0.6}
+        for dask, chunk_mode in ((False, "half"), (True, rng.choice(CHUNK_MODES))):
+            case = {"reproject": "to-crs", "src": src_s(src), "how": str(how)[:40], "how_type": type(how).__name__, "own_crs": own,
+                    "kw": {k: str(v) for k, v in kw.items()}, "ds": as_ds, "dask": dask, "chunks": chunk_mode, "crs_coord_name": cn,
+                    "attrs": sorted(stale_attrs)}
+            try:
+                xx = make_xx(oxr, src, None, None, dask, dtype="float32", cn=cn, chunk_mode=chunk_mode, nodata=0, keep="me", **stale_attrs)
+                cache_history(rng, src.crs, how if not isinstance(how, int) else f"EPSG:{how}")
+                want = xx.odc.output_geobox(how, **kw)
+                obj = xr.Dataset({"a": xx, "b": xx + 1}, attrs={"crs": "stale"}) if as_ds else xx
+                out = oxr.xr_reproject(obj, how, **kw) if rng.random() < 0.5 else obj.odc.reproject(how, **kw)
+                kind = ("ds" if as_ds else "da") + ("|own-crs" if own else "|to-crs")
+                reproject_oracle(R, out, want, case, kind, approx=True)
+                if as_ds:
+                    reproject_oracle(R, out["b"], want, case, kind + "|var", approx=True)
+            except Exception as e:  # pylint: disable=broad-except
+                R.oracle(False, "reproject|to-crs|raises", case, repr(e))
 
 
 def reproject_oracle(R: Run, out, dst, case, kind, approx=False, encoding_kept=True):
